@@ -5,7 +5,7 @@ import Mathlib.Data.List.Dedup
 pipeline, Ibis native graph, Ibis SQL-demeaning fallback), with an executable meaning.
 
 Column names are structured (`Name`): user columns and the intermediate / output names the code
-formats (`_count`, `_mean__c`, `_var__c`, `_cov__a__b`, `_demean__c`).  The harness parses the real
+formats (`_count`, `_mean__c`, `_var__c`, `_cov__a__b`, `_demean__c`, `_group_mean__c`).  The harness parses the real
 names into this type when it canonicalises a captured pipeline. -/
 
 namespace Query
@@ -17,6 +17,7 @@ inductive Name
   | var (c : String)
   | cov (a b : String)
   | demean (c : String)
+  | gmean (c : String)          -- `_group_mean__c`
 deriving DecidableEq, Repr
 
 /-- row-level and aggregate expressions (one language, as in Narwhals / Ibis) -/
@@ -40,6 +41,8 @@ deriving DecidableEq, Repr
 
 inductive Stage
   | withColumns (defs : List (Name × Expr))
+  /-- `data.join(data.group_by(g).agg(defs), on=g, how="left")`: per-group aggregates attached to every row -/
+  | joinGroup (defs : List (Name × Expr))
   | aggregate (grouped : Bool) (defs : List (Name × Expr))
 deriving DecidableEq, Repr
 
@@ -95,8 +98,17 @@ def aggregate [Inhabited κ] (grouped : Bool) (defs : List (Name × Expr)) (T : 
     ((T.map (·.key)).dedup).map (fun k => aggRow defs (T.filter (fun r => r.key = k)) k)
   else [aggRow defs T default]
 
+/-- left join, on the group key, of the table with its own `group_by(key).agg(defs)`: every row gets the
+aggregated row of its group under the names of `defs` (the right-hand side has one row per key, so no row
+is duplicated or lost; the order of the output rows is irrelevant to everything downstream) -/
+def joinGroup (defs : List (Name × Expr)) (T : List (Row κ α)) : List (Row κ α) :=
+  T.map (fun r => { r with val := fun n => match lookupDef defs n with
+                                    | some _ => (aggRow defs (T.filter (fun r' => r'.key = r.key)) r.key).val n
+                                    | none => r.val n })
+
 def evalStage [Inhabited κ] : Stage → List (Row κ α) → List (Row κ α)
   | .withColumns defs, T => withColumns defs T
+  | .joinGroup defs, T => joinGroup defs T
   | .aggregate g defs, T => aggregate g defs T
 
 def eval [Inhabited κ] (q : Q) (T : List (Row κ α)) : List (Row κ α) := q.foldl (fun t s => evalStage s t) T
@@ -121,16 +133,21 @@ def covarCols (s : ColSpec) : List String :=
 
 def ucol (c : String) : Expr := .col (.user c)
 
-/-- `_demean_nw_col`: `col − col.mean()[.over(group)]` -/
-def demeanNw (grouped : Bool) (c : String) : Expr :=
-  .sub (ucol c) (if grouped then .over (.mean (ucol c)) else .mean (ucol c))
+/-- `_demean_nw`: ungrouped, one `with_columns` of `col − col.mean()`; grouped, the group means are
+computed by `group_by(g).agg(…)`, joined back by the key, and subtracted -/
+def demeanNwStages (grouped : Bool) (cc : List String) : List Stage :=
+  if grouped then
+    [Stage.joinGroup (cc.map (fun c => (Name.gmean c, Expr.mean (ucol c)))),
+     Stage.withColumns (cc.map (fun c => (Name.demean c, Expr.sub (ucol c) (.col (.gmean c)))))]
+  else
+    [Stage.withColumns (cc.map (fun c => (Name.demean c, Expr.sub (ucol c) (.mean (ucol c)))))]
 
 /-- `_read_aggr_narwhals` -/
 def nwQuery (grouped : Bool) (s : ColSpec) : Q :=
   let cc := covarCols s
   (if cc.isEmpty then [] else
-    [Stage.withColumns (cc.map (fun c => (Name.demean c, demeanNw grouped c))),
-     Stage.withColumns (s.var_cols.map (fun c => (Name.var c, Expr.mul (.col (.demean c)) (.col (.demean c))))
+    demeanNwStages grouped cc ++
+    [Stage.withColumns (s.var_cols.map (fun c => (Name.var c, Expr.mul (.col (.demean c)) (.col (.demean c))))
        ++ s.cov_cols.map (fun p => (Name.cov p.1 p.2, Expr.mul (.col (.demean p.1)) (.col (.demean p.2)))))])
   ++ [Stage.aggregate grouped
        ((if s.has_count || !cc.isEmpty then [(Name.count, Expr.len)] else [])
